@@ -169,7 +169,11 @@ def take_name(cur: Cursor, node: NodeInfo) -> Tuple[bool, str]:
     if cur.take_lit(text):
         return True, ""
     if _re.fullmatch(r"[0-9a-fA-F]+h", text) and cur.take_lit("0x" + text[:-1]):
-        return False, "name rewritten: h-suffixed hex literal NNh -> 0xNN"
+        if text.lower() not in ("ah", "bh", "ch", "dh"):
+            # a literal in assembler notation (10h, A3h): the recorded finding
+            return False, "name rewritten: h-suffixed hex literal NNh -> 0xNN"
+        # an x86 register name that merely looks like one (ah bh ch dh): its own, distinct, violation
+        return False, f"register name {text!r} rewritten to 0x{text[:-1]}"
     return False, f"name {text!r} rewritten to {cur.rest()[:len(text) + 6]!r}"
 
 
